@@ -41,6 +41,11 @@ func init() {
 	for i, m := range Methods {
 		methodIndexMap[m] = 1 << i
 	}
+
+	// 预先生成所有组合，此后 methodIndexes 只读，不同的实例之间不再共享可变的状态。
+	for i := range 1 << len(Methods) {
+		buildMethodIndexes(i)
+	}
 }
 
 type methodIndexEntity struct {
